@@ -372,9 +372,15 @@ def run_js_bytes(res, tier, sample_idx, rng):
                 for header in (False, True):
                     base = {'bytes_hex': data.hex(), 'encoding': 'binary' if encoding == 'latin-1' else encoding, 'delim': ',', 'policy': policy, 'has_header': header, 'comment_prefix': comment}
                     reqs = [dict(base, chunks=[n] if n else [])] + [dict(base, chunks=p_) for p_ in parts]
-                    outs = node.call({'op': 'read_batch', 'cases': reqs})['results']
+                    outs = node.call({'op': 'read_batch', 'cases': reqs + [dict(base, chunks=None)]})['results']
                     whole = key(outs[0])
                     res.distinct_disjoint += 1
+                    # the other way of reading it whole: the bulk reader over the file
+                    bulk = outs.pop()
+                    res.count('js_bulk_vs_one_read_comparisons')
+                    if key(bulk) != whole:
+                        res.violation('js-bulk-read-differs-from-one-stream-read', '[js] %s bytes %r (%s comment %r header %s): bulk reader -> %s, stream reader in one read -> %s' % (encoding, data, policy, comment, header, key(bulk)[:300], whole[:300]),
+                                      {'mode': 'js-bytes', 'text': text, 'policy': policy, 'comment': comment, 'header': header, 'encoding': encoding, 'pieces': None})
                     for p_, o in zip(parts, outs[1:]):
                         res.evaluations += 1
                         res.count('js_byte_partition_runs')
@@ -408,7 +414,7 @@ def run_js_bytes(res, tier, sample_idx, rng):
 
 
 # further samples for the JS leg: 4-byte characters at the start, in the middle and at the end, next to each other and next to line breaks
-JS_EXTRA_SAMPLES = [('utf-8', '😀'), ('utf-8', 'a😀😀\n\U0010ffff,€é\r\n😀'), ('utf-8', '"😀\r\n😀",\U00010000\r')]
+JS_EXTRA_SAMPLES = [('utf-8', 'a,\ufffd\n\ufffd\ufffd,"\uffff\n\ufffd"\r\n'), ('utf-8', '😀'), ('utf-8', 'a😀😀\n\U0010ffff,€é\r\n😀'), ('utf-8', '"😀\r\n😀",\U00010000\r')]
 
 
 def plan(tier, seed):
@@ -466,7 +472,7 @@ def summarize(tier, seed, m):
     return {
         'rule': 'every text of length <= %d over {a, quote, comma, LF, CR, #, space} x all 2^(n-1) partitions into successive reads (chunk_size n+1) x policies {simple, quoted, quoted_rfc} x comment prefix {none, #} x header {off, on}; length %d with header off (quick tier: 4 of the 6 policy x comment configurations at that length); for each text also chunk_size 1..n on the undivided text; every byte partition of %d multi-byte UTF-8 / latin-1 / BOM samples through a RawIOBase; the same samples (+ three with 4-byte characters at every position) through the JS stream reader, every partition (short) or every one- and two-cut, byte-by-byte and random partition (long) against the whole content in one read; 120-1500 short records in chunks of 37-4000 bytes delivered on separate event-loop turns to a consumer that yields every 0 / 1 / 2 / 7 records; random longer texts with random partitions and chunk sizes (text and byte level); lines and quoted_rfc records of 1100-6000 characters delivered one, two or 1-3 characters per read (thousands of reads per line) at chunk sizes 7 / 512 / 1024 / 4096; the same exhaustive differential up to 5 / 6 characters for 7 further dialects (semicolon, space + whitespace policy, space + quoted, monocolumn, multi-character delimiter with quoted_rfc and simple, tab) with single- and multi-character comment prefixes. Each whole read is also compared with the reference reader. distinct_nontrivial = (text, configuration) pairs whose text contains a line break or a quote.' % (FULL_LEN[tier], EXTRA_LEN[tier], len(byte_samples())),
         'exhaustive': True,
-        'required': ['partition_runs', 'js_byte_partition_runs', 'js_lagging_consumer_runs', 'byte_partition_runs', 'byte_partition_runs_buffered_reader', 'reference_comparisons', 'chunk_size_runs', 'dialect_partition_runs', 'dialect_reference_comparisons', 'very_long_line_runs'],
+        'required': ['partition_runs', 'js_byte_partition_runs', 'js_bulk_vs_one_read_comparisons', 'js_lagging_consumer_runs', 'byte_partition_runs', 'byte_partition_runs_buffered_reader', 'reference_comparisons', 'chunk_size_runs', 'dialect_partition_runs', 'dialect_reference_comparisons', 'very_long_line_runs'],
         'assumptions': ['all delivery sequences a stream can produce are covered by enumerating partitions under a large chunk_size (a read(k) request returns min(piece, k)) plus the chunk-size sweep',
                         'rv.model.refcsv.read_text states the line-ending / comment / multi-line / BOM rules'],
     }
